@@ -81,7 +81,7 @@ import time
 SHORT_NAMES = ("network", "segments", "noise", "coder", "logger", "axolotl_control",
                "axolotl_parallel", "protocol_parallel", "top")
 
-SEND_KINDS = ("iq_ping", "presence", "raw_node", "bare_node", "unencodable", "oversize")
+SEND_KINDS = ("iq_ping", "presence", "raw_node", "bare_node", "unencodable", "oversize", "oversize_exact", "largest_ok")
 RECV_KINDS = ("iq_ping_from_server", "receipt", "ack", "presence", "notification_unsupported",
               "garbage", "decrypt_fail")
 
@@ -383,7 +383,7 @@ def _make_top_class():
 
 
 class Rig(object):
-    cause_layer = {"unencodable": "coder", "oversize": "segments", "not_transport": "noise",   # both dirs
+    cause_layer = {"unencodable": "coder", "oversize": "segments", "oversize_exact": "segments", "not_transport": "noise",   # both dirs
                    "undecodable": "coder", "handler_valueerror": "protocol_parallel",
                    "app_callback": "top", "decrypt_fail": "noise"}
 
@@ -565,7 +565,7 @@ class Rig(object):
         if d == "down":
             if cause == "not_transport":
                 self.disconnect()
-            elif cause in ("unencodable", "oversize"):
+            elif cause in ("unencodable", "oversize", "oversize_exact"):
                 self._next_override["down"] = cause
             else:
                 raise ValueError("unknown down cause %r" % cause)
@@ -625,6 +625,20 @@ class Rig(object):
         if kind == "oversize":
             return _RawIq(ProtocolTreeNode("iq", {"id": self._id("raw"), "type": "get", "xmlns": "w", "to": SERVER},
                                            [ProtocolTreeNode("big", {}, None, b"\x00" * (2 ** 24))]))
+        if kind in ("oversize_exact", "largest_ok"):
+            # the boundary itself: the encoded frame is exactly the first length the segment layer cannot carry once
+            # the 16-byte tag is appended (2^24 - 16), or one byte less (the largest frame that does fit)
+            target = (1 << 24) - 16 - (1 if kind == "largest_ok" else 0)
+            nid = self._id("raw")
+
+            def mk(n):
+                return ProtocolTreeNode("iq", {"id": nid, "type": "get", "xmlns": "w", "to": SERVER},
+                                        [ProtocolTreeNode("big", {}, None, b"\x00" * n)])
+            n = target - 200
+            n += target - len(self.peer.encode(mk(n)))
+            node = mk(n)
+            assert len(self.peer.encode(node)) == target
+            return _RawIq(node)
         raise ValueError("unknown send kind %r" % kind)
 
     def op_send(self, kind):
